@@ -17,7 +17,7 @@ from pyvc import externals
 from pyvc.explore import explore, prove
 from pyvc.heap import DEFPOW, FACT, POW
 from pyvc.interp import Interp, PathState
-from pyvc.values import NAN, DictObj, IdStr, Num, Obj, OutOfSubset, PyRaise, b_and, b_not, zbool, zreal
+from pyvc.values import INF, NAN, DictObj, IdStr, Num, Obj, OutOfSubset, PyRaise, b_and, b_not, zbool, zreal
 
 from .common import REPO, Result, load_known, match_known, run_venv, tierb_json
 
@@ -102,6 +102,9 @@ def operate_path(I: Interp, ps: PathState, kind: str) -> Dict[str, Any]:
             ob("no-raise", False, f"raised {raised.exc.clsname} at {raised.site}")
         elif ret is NAN:
             ob("NaN-only-outside-the-real-domain", True, goal=z3.Not(DEFPOW(a, b)))
+        elif ret is INF:
+            # the IEEE result at a pole of the power function
+            ob("infinity-only-at-a-pole-(0-to-a-negative-power)", True, goal=z3.And(a == 0, b < 0))
         else:
             expect_value(POW(a, b), int_closed=False)
             nonneg_ints = z3.And(ints, b >= 0)
@@ -307,7 +310,11 @@ def run(tier: str, seed: int) -> int:
                 continue
             R.violation(f"bounded check on real code: {f['clause']}: {f['detail'][:240]}", {"failure": f}, True)
     R.level = "other"
+    from . import engine_diff
+
+    diff_summary = engine_diff.report(R, engine_diff.methods_diff(), "evaluate / clone / traversals / rotate / term functions on concrete trees")
     R.coverage = {
+        "engine_differential": diff_summary,
         "explanation": "integer/real clauses: deductive obligations on every operate and evaluate body (all discharged = proof of those clauses); IEEE 'few ulps' clause: bounded magnitude grid on the real code (not proved)",
         "obligations": n_obl,
         "discharged": n_ok,
